@@ -43,6 +43,9 @@ CLAIMED = {
     "C13": ("4 C13", "property-based testing (rapid): single-fault injection into generated valid multi-line templates and template trees, expected line/file known by construction; plus an exhaustive table of fault forms x preceding multi-line token kinds",
             "Exploration: valid templates (reference interpreter says they render) with text/strings/comments/blocks/headers spanning lines before one single-line fault of each listed kind at a certainly-executed place; trees with page, layout and component for load-time and page-level faults. The reported line (and absolute path) must equal the line counted in the generated source.",
             "Trusted: the line is computed by counting newlines before a unique marker in the generated source (no lexer involved). The faulty construct is always written on one line, so 'the line its token ends on' is unambiguous; run-time faults inside layout/component files are not asserted (the statement only fixes the path for load-time faults and faults in the page).", "exploration"),
+    "C14": ("4 C14", "property-based testing (rapid): generated order-sensitive programs and template trees, each rendered N times in one process (fresh load per repetition via the reset hook) and in fresh processes; metamorphic oracle: all results identical",
+            "Exploration: objects with 2..12 keys printed/dumped in 8 forms (literal and data, nested); object literals / component arguments / data maps with several simultaneous faults of different kinds; pages with several undefined inserts, duplicated or undeclared slots, two or three faulty files; each 24 (trees: 12) repetitions in process, a sample also in 3 fresh processes. With Go's per-iteration random map order a two-way order dependence survives 24 repetitions with probability 2^-23.",
+            "Trusted: Go's map iteration randomisation as the source of divergence (a dependence on something that only differs between machines is out of reach). shuffle() and rand() are never generated. Scratch directory names are normalised in outcomes.", "exploration"),
     "C19": ("4 C19", "bounded exhaustive enumeration of lexeme sequences + property-based testing (rapid) of generated multi-line templates, their prefixes and soups against an independent offset<->(line, column) index",
             "Exploration: every sequence of <= 3 (quick) / 4 (thorough) lexemes incl. CRLF, multi-line strings/comments, escapes, multi-byte text; generated valid templates with random newlines and their prefixes; soups. For each input: tokens ordered and disjoint, start/end are the first/last byte, the source range is the token's own text, gaps are whitespace or complete comments, EOF just past the last byte, and every byte position is contained in exactly the covering token.",
             "Trusted: lib/reftext index and escape classification. Inputs containing NUL are excluded (lexer's end marker). After an ILLEGAL token nothing is asserted. The literal of a text token next to the unsettled '\\{{{' overlap is not compared.", "exploration"),
